@@ -39,7 +39,8 @@ import (
 type clientSpec struct {
 	Name  string
 	Stage int
-	// Calls: "exec <action> <toolInvocation> [<correlated> [<priority>]]",
+	// Calls: "exec <action> <toolInvocation> [<correlated> [<priority>]] [skip?|skip]"
+	// (skip?: skip_cache_lookup is a free choice false/true; skip: true),
 	// "wait <stream id>", "waitbg" (WaitExecution on the background learning
 	// operation that ListOperations shows), "sleep <ticks>".
 	Calls []string
@@ -62,7 +63,7 @@ type workerSpec struct {
 	// sense in the current state are left out of the menu.
 	Busy []string
 	// What it may report otherwise: idle, pidle, wrong, vanish, sleep<N>,
-	// resend, okprev, execprev.
+	// resend, okprev, execprev, malformed (request without current_state).
 	Idle    []string
 	Cancels int
 }
@@ -426,6 +427,15 @@ func (a *actor) runClient() {
 			a.sleep(n)
 		case "exec":
 			ai := w.actions[f[1]]
+			// "skip?": ExecuteRequest.skip_cache_lookup is a free choice of
+			// the client (false/true); "skip": always true. The flag concerns
+			// the action cache only; the action stays cacheable, so every C03
+			// clause applies unchanged.
+			skip := false
+			if last := f[len(f)-1]; last == "skip?" || last == "skip" {
+				f = f[:len(f)-1]
+				skip = last == "skip" || w.x.ChooseFree(a.name+".skip_cache_lookup", 2) == 1
+			}
 			tool, corr, prio := f[2], "corr", 0
 			if len(f) > 3 {
 				corr = f[3]
@@ -439,6 +449,7 @@ func (a *actor) runClient() {
 			err := w.bq.Execute(&remoteexecution.ExecuteRequest{
 				InstanceName:    w.cfg.ClientInstance,
 				ActionDigest:    ai.digest,
+				SkipCacheLookup: skip,
 				ExecutionPolicy: &remoteexecution.ExecutionPolicy{Priority: int32(prio)},
 			}, s)
 			w.x.CheckNoLocksHeld("Execute")
@@ -654,6 +665,9 @@ func (a *actor) runWorker() {
 		case "pidle":
 			req.CurrentState = &remoteworker.CurrentState{WorkerState: &remoteworker.CurrentState_Idle{Idle: &emptypb.Empty{}}}
 			req.PreferBeingIdle = true
+		case "malformed":
+			// A request without current_state (half-restarted / buggy worker):
+			// rejected with INVALID_ARGUMENT; the worker then stops calling.
 		case "wrong":
 			req.CurrentState = &remoteworker.CurrentState{WorkerState: &remoteworker.CurrentState_Executing_{Executing: &remoteworker.CurrentState_Executing{
 				ActionDigest:   wrongDigest,
